@@ -36,8 +36,9 @@
 (*            WMAX  mpn_sqrtrem is run for nn = 1..WMAX limbs              *)
 (*                  (NMAX = WMAX = 0: mpn_sqrtrem1 only)                   *)
 (*            Variant "ok" = the code as it is; others flip one step       *)
-(*            EMIT  print <<"SQW", n, u, labels>> for the operands whose   *)
-(*                  uncorrected root overflows {sp, n} (carry q = 1)       *)
+(*            EMIT  print <<"SQW", kind, size, W, u, labels>> the first    *)
+(*                  time a worker meets a set of branch labels (kind "dc": *)
+(*                  size = n, u has 2n limbs; "w": size = nn)              *)
 (***************************************************************************)
 EXTENDS Naturals, Integers, Sequences, FiniteSets, TLC
 CONSTANTS W, TP, NMAX, WMAX, Variant, EMIT
@@ -297,7 +298,7 @@ SqrtremW(np) ==
 (* ------------------------------------------------------------------------------------------------------------------ *)
 VARIABLES phase, kind, nl, hi
 vars == <<phase, kind, nl, hi>>
-Init == phase = 0 /\ kind = "" /\ nl = 0 /\ hi = 0
+Init == phase = 0 /\ kind = "" /\ nl = 0 /\ hi = 0 /\ (EMIT => TLCSet(1, {}))
 PickS1 == phase = 0 /\ phase' = 1 /\ kind' = "s1" /\ nl' = 1 /\ hi' \in (B \div 4)..(B - 1)                      \* every normalised limb
 PickDC == phase = 0 /\ phase' = 1 /\ kind' = "dc" /\ nl' \in 1..NMAX /\ hi' \in (B ^ nl' \div 4)..(B ^ nl' - 1)   \* n = nl: the high n limbs; the invariant runs over the low n
 PickW  == phase = 0 /\ phase' = 1 /\ kind' = "w" /\ nl' \in 1..WMAX                                         \* nn = nl: the high ceil(nn/2) limbs, top limb non-zero
@@ -305,7 +306,7 @@ PickW  == phase = 0 /\ phase' = 1 /\ kind' = "w" /\ nl' \in 1..WMAX             
 Spec == Init /\ [][PickS1 \/ PickDC \/ PickW]_vars
 
 IsRoot(s, u) == s * s <= u /\ u < (s + 1) * (s + 1)
-Rare(lab, n) == IF n = 1 THEN <<"s2sp0", 1>> \in lab ELSE <<"adjq", n>> \in lab        \* the uncorrected root was B^n (carry out of {sp, n})
+Seen(sig) == IF sig \in TLCGet(1) THEN TRUE ELSE (TLCSet(1, TLCGet(1) \cup {sig}) /\ FALSE)          \* per-worker register of the label sets already printed
 Correct ==
    /\ (phase = 1 /\ kind = "s1" /\ TP # 0) =>
          LET a == Sqrtrem1(hi) IN a.ok /\ IsRoot(a.s, hi) /\ a.r = hi - a.s * a.s
@@ -318,7 +319,7 @@ Correct ==
                 /\ IsRoot(s, u)
                 /\ d.c \in {0, 1}                                                 \* "returns the high limb of the remainder (which is 0 or 1)"
                 /\ d.c * B ^ nl + NatOf(Sub(d.np, 0, nl)) = u - s * s             \* "in {np, n} the low n limbs of the remainder"
-                /\ (EMIT /\ Rare(d.lab, nl)) => PrintT(<<"SQW", nl, u, d.lab>>)
+                /\ (EMIT /\ ~Seen(<<"dc", nl, d.lab>>)) => PrintT(<<"SQW", "dc", nl, W, u, d.lab>>)
    /\ (phase = 1 /\ kind = "w") =>
          \A lo \in 0..(B ^ (nl \div 2) - 1) :
             LET u == hi * B ^ (nl \div 2) + lo
@@ -328,4 +329,5 @@ Correct ==
                 /\ IsRoot(s, u)
                 /\ NatOf(w.r) = u - s * s                                         \* {rp, rn} is the remainder ...
                 /\ (w.r = <<>> \/ w.r[Len(w.r)] # 0)                              \* ... and rn is its exact limb count (MPN_NORMALIZE)
+                /\ (EMIT /\ ~Seen(<<"w", nl, w.lab>>)) => PrintT(<<"SQW", "w", nl, W, u, w.lab>>)
 =============================================================================
